@@ -321,14 +321,21 @@ LoopsBare(t, toks, st, la, fuel) ==
          [] a[1] = "s" -> LET st3 == TLCEval(Append(st, a[2])) IN LoopsBare(t, toks, st3, la + 1, fuel - 1)
          [] OTHER -> FALSE
 
-\* does the table send the automaton round reductions of empty productions on some token?  (no
-\* symbol is popped by such a reduction, so the cycle does not depend on the rest of the stack)
-EpsStep(t, s, tok) == LET a == TAct(t, s, tok) IN
-                      IF a[1] = "r" /\ PLen(a[2]) = 0 THEN TGoto(t, s, Lhs(a[2])) ELSE -1
-RECURSIVE EpsWalk(_, _, _, _)
-EpsWalk(t, s, tok, seen) == IF s < 0 THEN FALSE ELSE IF s \in seen THEN TRUE
-                            ELSE EpsWalk(t, EpsStep(t, s, tok), tok, seen \cup {s})
-EpsCycle(t) == \E s \in 0 .. Len(t.act) - 1, tok \in Tokens : EpsWalk(t, s, tok, {})
+\* does the table send the automaton round reductions on some token without consuming it?  Run the
+\* bare machine from the one-state stack <<s>> with the lookahead fixed: a reduction that would pop
+\* the base state depends on the rest of the stack and ends the run, as do shift, accept and error;
+\* a run that is still going after `fuel' steps (every cycle passes through reductions of empty
+\* productions, possibly mixed with unit and longer ones) does not depend on what is below s.
+RECURSIVE RelRun(_, _, _, _)
+RelRun(t, st, tok, fuel) ==
+  IF fuel = 0 THEN TRUE
+  ELSE LET a == TAct(t, st[Len(st)], tok) IN
+       IF a[1] = "r" /\ PLen(a[2]) < Len(st)
+       THEN LET st2 == SubSeq(st, 1, Len(st) - PLen(a[2]))
+                st3 == TLCEval(Append(st2, TGoto(t, st2[Len(st2)], Lhs(a[2]))))
+            IN RelRun(t, st3, tok, fuel - 1)
+       ELSE FALSE
+EpsCycle(t) == \E s \in 0 .. Len(t.act) - 1, tok \in Tokens : RelRun(t, <<s>>, tok, 600)
 
 RunDevs(t, a, e, run) ==
   IF "overflow" \in DOMAIN run THEN D("C07", "more errors than lexemes", run.nerrors)
@@ -455,6 +462,10 @@ OnHang(e) ==
                 THEN D("C17", "KF:cost-nonreturn", "hang") ELSE D("C17", "cost query did not return", 0))
           [] last \in {"table", "parse"} ->
                (IF X.cyclic THEN D("SKIP", "parse hang on cyclic grammar", 0)
+                ELSE IF T.has_conflicts /\ "has_input" \in DOMAIN e /\ e.has_input /\ LoopsBare(T, e.input, <<T.start>>, 0, 800)
+                     \* the harness could name the input of the parse that did not return, and the
+                     \* specification's LR machine loops on this table for that input as well
+                     THEN D("C07", "KF:lr-loop-conflicts", 2) \cup D("SKIP", "parse hang: the LR automaton of a table with resolved conflicts loops on this input", e.input)
                 ELSE IF T.has_conflicts /\ EpsCycle(T)
                      \* the automaton of this table can cycle through empty reductions by itself (see
                      \* RunDevs); the killed child cannot tell us which input it was working on
